@@ -140,6 +140,10 @@ func runSyncQ(c *Ctx, prop string) {
 								break
 							}
 						}
+						// the queue's Remove() itself returns the element it removed from the head
+						if !peekOK && e.Res != nil && t.End == EndReturn && len(t.Ret) >= 1 && t.Ret[0].Key() == e.Res.Key() {
+							peek, peekOK = e.Res, true
+						}
 						good := ek && !em && peekOK
 						if good && t.End == EndReturn && len(t.Ret) >= 1 && t.Ret[0].Key() != peek.Key() {
 							good = false
